@@ -49,7 +49,7 @@ class Gen:
 
 	# ---- literals ---------------------------------------------------------------------
 	def number(self) -> str:
-		return self.pick(['0', '1', '2', '10', '42', '1.5', '0.25', '3.', '0x1F', '0xff', '1000000', '1e3'])
+		return self.pick(['0', '1', '2', '10', '42', '1.5', '0.25', '3.', '0x1F', '0xff', '1000000', '1e3', '2E-3', '1e5', '1.5e3', '0x1e5'])
 
 	def string(self) -> str:
 		body = ''.join(self.pick(['a', 'b', ' ', 'x1', '%d', '{}', ',', ':', '(', '#']) for _ in range(self.rnd.randint(0, 3)))
@@ -132,6 +132,11 @@ class Gen:
 			return self.pick(['True', 'False', 'None'])
 		if c == 9:
 			return self.pick(['...', '[]', '{}', '()'])
+		if c == 10 and self.chance(0.5):
+			# a display directly followed by a comprehension of the same kind: their tags (list / list_comp, dict / dict_comp) are string prefixes
+			first = self.pick(['[]', f'[{self.number()}]', '{}', f'{{{self.string()}: {self.name()}}}'])
+			opener, closer = self.pick([('[', ']'), ('(', ')')])
+			return opener + first + ', ' + self.comp(depth) + closer
 		if c <= 12:
 			items = [self.expr(depth - 1, TERNARY) if not self.chance(0.08) else '*' + self.expr(depth - 1, BOR) for _ in range(r.randint(1, 3))]
 			return '[' + self.join_items(items) + ']'
